@@ -448,8 +448,9 @@ def r6_5(prog, rep, pp):
         cs = [x for x in calls_in(f.node) if dotted(x.func) in ("reduce", "functools.reduce")]
         if len(cs) != 1 or len(cs[0].args) != 2:
             return None
-        lc = cs[0].args[1]
-        if not (isinstance(lc, ast.ListComp) and len(lc.generators) == 1 and not lc.generators[0].ifs):
+        from .. import order as O
+        lc = O.fold_operand(cs[0].args[1], f)
+        if lc is None:
             return None
         return (dotted(cs[0].args[0]), unparse(lc.generators[0].iter), unparse(lc.elt), unparse(lc.generators[0].target))
 
